@@ -77,7 +77,8 @@ pub fn check_svg(v: &SvgView, case: &Value, st: &mut Stats) -> bool {
         return false;
     }
     let (va, vb) = (v.lattice.va(), v.lattice.vb());
-    let scale = 1. + v.lattice.a.abs() + v.lattice.b.abs();
+    // (relative to the size of the lattice: a structure in metres is as exact as one in sigma)
+    let scale = v.lattice.a.abs() + v.lattice.b.abs();
     let mut used = vec![false; uses.len()];
     for p in v.placements.iter() {
         for nn in -1..=1i64 {
@@ -295,6 +296,7 @@ pub fn check_many_sites(seed: u64, st: &mut Stats) {
     let sites = vec![general; nsites];
     let family = if libx::is_oblique(group) { CrystalFamily::Monoclinic } else { CrystalFamily::Orthorhombic };
     let cv = json!({ "many_sites_seed": seed });
+    let mut scale_len = 1f64;
     st.nontrivial(hash64(&[1111, seed]));
     st.count(&format!("states_with_many_sites[{}]", if nsites > 26 { "> 26" } else { "2..26" }));
     macro_rules! place {
@@ -303,11 +305,11 @@ pub fn check_many_sites(seed: u64, st: &mut Stats) {
                 Ok(v) => v,
                 Err(_) => return,
             };
-            v["cell"]["length"] = json!(rng.gen_range(3., 6.) * (nsites as f64 * 4.).sqrt());
+            v["cell"]["length"] = json!(scale_len * rng.gen_range(3., 6.) * (nsites as f64 * 4.).sqrt());
             for i in 0..nsites {
                 v["occupied_sites"][i]["x"] = json!(rng.gen_range(-0.5, 0.5));
                 v["occupied_sites"][i]["y"] = json!(rng.gen_range(-0.5, 0.5));
-                v["occupied_sites"][i]["angle"] = json!(rng.gen_range(0., 2. * PI));
+                v["occupied_sites"][i]["angle"] = json!(if rng.gen_range(0, 6) == 0 { [0., PI / 2., PI, 3. * PI / 2.][rng.gen_range(0, 4)] } else { rng.gen_range(0., 2. * PI) });
             }
             match serde_json::from_value::<$ty>(v) {
                 Ok(s) => s,
@@ -320,7 +322,12 @@ pub fn check_many_sites(seed: u64, st: &mut Stats) {
         let o = OShape::Discs(shape.items.iter().map(|a| ([a.position.x, a.position.y], a.sigma / 2.)).collect());
         let s = place!(PotentialState::initialise(shape, Wallpaper { name: group.to_string(), family }, &sites), PotentialState<LJShape2>);
         roundtrip!(&s, PotentialState<LJShape2>, &cv, st, true, o.clone());
-    } else if let Ok(shape) = LineShape::polygon(rng.gen_range(3, 8)) {
+    } else if let Ok(shape) = {
+        // in units of the shape's size, or in metres (an atom is 1e-10 across)
+        let unit = [1., 1., 3e-11, 1e-7, 1e4][rng.gen_range(0, 5)];
+        scale_len = unit;
+        LineShape::from_radial("polygon", vec![unit; rng.gen_range(3, 8)])
+    } {
         let o = shape.oshape();
         let s = place!(PackedState::initialise(shape, Wallpaper { name: group.to_string(), family }, &sites), PackedState<LineShape>);
         roundtrip!(&s, PackedState<LineShape>, &cv, st, true, o.clone());
@@ -508,7 +515,7 @@ fn check_transforms_and_custom_groups<R: Rng>(rng: &mut R, st: &mut Stats) {
 }
 
 pub fn run(ctx: &Ctx) {
-    ctx.set_rule("states of both kinds, all groups and shapes with random full-precision parameters (plus the exact ends of each range and one ulp inside them), a share of them optimised first, are serialised with serde_json::to_string, read back with from_str and serialised again: the two texts must be identical and score and Cartesian placements bit-identical; the SVG document is parsed: its <use href=#mol> transforms must be exactly the placements and their 8 nearest lattice images, each once, in matrix(a b c d e f) column order (linear part bit-exact, translation within 1e-12 of the independent lattice), and #mol must be the shape; the same for states with 2..60 occupied sites (initialise). Bare Transform2 values with arbitrary rotations, and states of user-defined p4/p3/p6 groups (non-symmetric linear parts), go through the same text round trip. The JSON/SVG files written by the real binary get the same treatment (file re-serialises to itself byte for byte, reproduces the logged score bit for bit). Non-trivial = states with >= 3 parameters that are not short decimals; distinct by parameter bits");
+    ctx.set_rule("states of both kinds, all groups and shapes with random full-precision parameters (plus the exact ends of each range and one ulp inside them), a share of them optimised first, are serialised with serde_json::to_string, read back with from_str and serialised again: the two texts must be identical and score and Cartesian placements bit-identical; the SVG document is parsed: its <use href=#mol> transforms must be exactly the placements and their 8 nearest lattice images, each once, in matrix(a b c d e f) column order (linear part bit-exact, translation within 1e-12 of the lattice size of the independent lattice; structures in units from 3e-11 to 1e4), and #mol must be the shape; the same for states with 2..60 occupied sites (initialise). Bare Transform2 values with arbitrary rotations, and states of user-defined p4/p3/p6 groups (non-symmetric linear parts), go through the same text round trip. The JSON/SVG files written by the real binary get the same treatment (file re-serialises to itself byte for byte, reproduces the logged score bit for bit). Non-trivial = states with >= 3 parameters that are not short decimals; distinct by parameter bits");
     let n = ctx.tier.pick(3_000u64, 250_000u64);
     let nsvg = ctx.tier.pick(60u64, 3_000u64);
     let prev = std::panic::take_hook();
